@@ -668,7 +668,7 @@ func _updateIn(ctx context.Context, seq MalType, posVector Vector, f MalType) (M
 			if branch == nil {
 				branch = HashMap{}
 			}
-			inner, err := _updateIn(ctx, branch.(HashMap), rest, f)
+			inner, err := _updateIn(ctx, branch, rest, f)
 			if err != nil {
 				return nil, err
 			}
@@ -678,7 +678,7 @@ func _updateIn(ctx context.Context, seq MalType, posVector Vector, f MalType) (M
 			if branch == nil {
 				branch = Vector{}
 			}
-			inner, err := _updateIn(ctx, branch.(Vector), rest, f)
+			inner, err := _updateIn(ctx, branch, rest, f)
 			if err != nil {
 				return nil, err
 			}
